@@ -212,6 +212,44 @@ let handler r =
             | Ok (v, _) when not !bad -> put_f a; put_f v; put_i !ninner; put_i 0; put_f a; put_i 0
             | Ok _ -> put_w "MODELERR inner_call_failed"
             | Exit -> put_w "EXIT" | OOB -> put_w "OOB" | Fuel -> put_w "FUEL"))
+  | "nestx" ->
+      (* as nested, with two more degrees of freedom: the inner call is made before (first = 1) or after the integrand of the outer call looks at the
+         point it was handed (in the model a point is a value: the order cannot matter), and either call may go through the front ends
+         Integrate_2D / Integrate_3D (entry fe; model: integrate_2d / integrate_3d of C13 over this model's integrate_mc), which build the
+         region {x1,y1,(z1),x2,y2,(z2)} from the limits.  Statics as in nested. *)
+      let first = integer r in
+      let oe = word r in let ie = word r in
+      let outer = read_call r in
+      let inner = read_call r in
+      let no_boost _ _ _ _ = failwith "nested methods are modelled in C13" in
+      let run_entry fe (c : call) (f : float list -> float) : float option =
+        let mc m g region ncalls =
+          match integrate_mc fops (us_of_seed c.seed) !state m g region ncalls with
+          | Ok (v, s) -> state := s; Ok v
+          | Exit -> Exit | OOB -> OOB | Fuel -> Fuel in
+        let res =
+          if not fe then mc c.m f c.region (z_of_int c.ncall)
+          else match c.region with
+            | [x1; y1; x2; y2] -> integrate_2d fops no_boost mc c.m (fun x y -> f [x; y]) x1 x2 y1 y2 (z_of_int c.ncall)
+            | [x1; y1; z1; x2; y2; z2] -> integrate_3d fops no_boost mc c.m (fun x y z -> f [x; y; z]) x1 x2 y1 y2 z1 z2 (z_of_int c.ncall)
+            | _ -> Exit in
+        match res with Ok v -> Some v | _ -> None in
+      let run_inner () = run_entry (ie = "fe") inner (integrand inner.e false) in
+      (match run_inner () with
+       | None -> put_w "MODELERR inner_call_failed"
+       | Some a ->
+           state := vstate0 fops;
+           let ninner = ref 0 and bad = ref false in
+           let f pt =
+             let w0 = if first <> 0 then run_inner () else None in
+             let v = integrand outer.e true pt in
+             incr ninner;
+             let w = if first <> 0 then w0 else run_inner () in
+             match w with Some w -> v *. w | None -> bad := true; nan in
+           (match run_entry (oe = "fe") outer f with
+            | Some v when not !bad ->
+                put_f a; put_f v; put_i !ninner; put_i 0; put_f a; put_i 0; put_i 0; put_rec (List.length outer.region / 2)
+            | _ -> put_w "MODELERR call_failed"))
   | "front3s" ->
       let m = parse_method (coq_string (word r)) in
       let seed = integer r in let p = z_of_int (integer r) in
